@@ -27,6 +27,7 @@ import (
 	"sync/atomic"
 	"time"
 
+	"github.com/brewlin/net-protocol/pkg/ilist"
 	"github.com/brewlin/net-protocol/pkg/waiter"
 	"verifh/vh"
 )
@@ -148,7 +149,7 @@ type script struct {
 // runOp runs f on its own goroutine.  Returns "" when f returned, else
 // "panic", "blocked" (parked in a blocking primitive, nobody left to wake it)
 // or "spinning", plus a detail string.
-func runOp(f func()) (string, string) {
+func runOp(f func(), spinPolls int) (string, string) {
 	done := make(chan string, 1)
 	var id int64
 	go func() {
@@ -189,7 +190,7 @@ func runOp(f func()) (string, string) {
 				}
 			} else {
 				blocked = 0
-				if polls > 400 { // not parked, not finished: busy (e.g. walking a cyclic list)
+				if polls > spinPolls { // not parked, not finished: busy (e.g. walking a cyclic list)
 					return "spinning", st[g] + "\n" + shortStack(stk[g])
 				}
 			}
@@ -205,7 +206,7 @@ func graph(path string) {
 	names := append(append([]string{}, g.Cb...), g.Ch...)
 	hangs := []map[string]interface{}{}
 	notifies, takes, cbs := 0, 0, 0
-	drifts, hard := 0, 0
+	drifts, hard, spins := 0, 0, 0
 	for pi, p := range g.Paths {
 		q := &waiter.Queue{}
 		ents := map[string]*ent{}
@@ -281,12 +282,30 @@ func graph(path string) {
 			default:
 				vh.Fatal("unknown action %s", st.Act)
 			}
-			status, detail := runOp(f)
+			// an operation that keeps running is waited for ~4 s; when the next pointers already form
+			// a cycle the walk is expected not to end and the wait is short (the outcome "spinning"
+			// never decides a violation, it only leaves this path without a verdict)
+			spin := 160
+			for _, x := range ents {
+				var it ilist.Element = &x.e
+				for i := 0; it != nil; i++ {
+					if i > len(names)+1 {
+						spin = 8
+						break
+					}
+					it = it.Next()
+				}
+			}
+			status, detail := runOp(f, spin)
 			switch status {
 			case "panic":
 				mm(si, "panic", st.Act+" panicked", nil, detail)
 			case "blocked", "spinning":
 				hangs = append(hangs, map[string]interface{}{"path": pi, "step": si, "act": st.Act, "how": status, "detail": detail})
+				if status == "spinning" {
+					spins++
+					hard-- // counted separately
+				}
 				mm(si, status, st.Act+" did not return: goroutine "+status, nil, detail)
 			case "abort":
 				// recorded below through the call counters
@@ -337,7 +356,7 @@ func graph(path string) {
 			}
 		}
 		res.Paths++
-		if hard > 24 {
+		if hard > 24 || spins > 30 {
 			break
 		}
 	}
